@@ -157,7 +157,7 @@ impl Scenario {
             format!("{}{}", self.cut.map(|c| format!(" cut@{c}")).unwrap_or_default(), self.cut2.map(|c| format!("+{c}")).unwrap_or_default()),
             self.endpoint,
             self.script,
-            format!("{}{}", if self.ttl_zero { "0" } else { "1h" }, if self.ttl_split { "(own class only, others opposite)" } else { "" }),
+            format!("{}{}", if self.script.starts_with("x:") { "2s" } else if self.ttl_zero { "0" } else { "1h" }, if self.ttl_split { "(own class only, others opposite)" } else { "" }),
             if self.disk_cache { "disk" } else { "memory" }
         )
     }
@@ -181,8 +181,9 @@ struct Observed {
 }
 
 fn make_client(sc: &Scenario, ports: [u16; 3], cache_dir: Option<&std::path::Path>) -> Result<RibbitTactClient, String> {
-    let ttl = if sc.ttl_zero { Duration::ZERO } else { Duration::from_secs(3600) };
-    let other = if !sc.ttl_split { ttl } else if sc.ttl_zero { Duration::from_secs(3600) } else { Duration::ZERO };
+    let expiry = sc.script.starts_with("x:");
+    let ttl = if expiry { SHORT_TTL } else if sc.ttl_zero { Duration::ZERO } else { Duration::from_secs(3600) };
+    let other = if !sc.ttl_split { ttl } else if sc.ttl_zero || expiry { Duration::from_secs(3600) } else { Duration::ZERO };
     // the documented TTL classes: versions/bgdl → ribbit_ttl, cdns → cdn_ttl, everything else → config_ttl
     let own = if sc.endpoint.contains("versions") || sc.endpoint.contains("bgdl") { 0 } else if sc.endpoint.contains("cdns") { 1 } else { 2 };
     let pick = |i: usize| if i == own { ttl } else { other };
@@ -258,7 +259,108 @@ fn allowed(sc: &Scenario) -> Vec<([usize; 3], Result<String, ()>)> {
     out
 }
 
+/// TTL of the expiry scripts (`script = "x:<steps>"`).
+const SHORT_TTL: Duration = Duration::from_secs(2);
+
+/// Expiry scripts: all endpoints answer well; steps: `q` query, `n` new client (same cache
+/// directory), `w` wait 1.2 s (mid-TTL), `W` wait until the last stored answer has surely
+/// expired. Real time: a query is judged only where the measured times leave no doubt — it
+/// started after (latest possible store time + TTL + margin) ⇒ must produce traffic; it ended
+/// before (earliest possible store time + TTL − margin) ⇒ must produce none. Anything in
+/// between is counted as unjudged, never alarmed on.
+async fn run_expiry_scenario(sc: Scenario) -> (Scenario, Result<String, (String, String, String)>) {
+    let name = sc.name();
+    let m0 = http_mock(http_behaviour(sc.https.unwrap_or(HB::Refuse), 100)).await;
+    let m1 = http_mock(http_behaviour(sc.http.unwrap_or(HB::Refuse), 200)).await;
+    let m2 = tcp_mock(tcp_behaviour(sc.tcp, 300, None, None)).await;
+    let ports = [m0.port, m1.port, m2.port];
+    let mocks = [&m0, &m1, &m2];
+    let scratch = if sc.disk_cache { Some(Scratch::new("c13x")) } else { None };
+    let cache_dir = scratch.as_ref().map(|s| s.path.join("cache"));
+    let fail = |kind: &str, cls: &str, detail: String| (sc.clone(), Err((kind.to_string(), cls.to_string(), detail)));
+    let margin = Duration::from_millis(30);
+    let mut client = match make_client(&sc, ports, cache_dir.as_deref()) {
+        Ok(c) => c,
+        Err(e) => return fail("client-creation", "", e),
+    };
+    // (earliest, latest) moment at which the answer now cached was stored
+    let mut stored: Option<(std::time::Instant, std::time::Instant)> = None;
+    let mut summary = String::new();
+    let mut unjudged = 0;
+    let steps = sc.script.trim_start_matches("x:");
+    let cache_cls = if sc.disk_cache { "disk" } else { "memory" };
+    for (i, st) in steps.chars().enumerate() {
+        match st {
+            'n' => {
+                drop(client);
+                client = match make_client(&sc, ports, cache_dir.as_deref()) {
+                    Ok(c) => c,
+                    Err(e) => return fail("client-creation", "", e),
+                };
+                if !sc.disk_cache {
+                    stored = None;
+                }
+            }
+            'w' => tokio::time::sleep(Duration::from_millis(1200)).await,
+            'W' => {
+                if let Some((_, hi)) = stored {
+                    let until = hi + SHORT_TTL + margin + Duration::from_millis(70);
+                    tokio::time::sleep_until(tokio::time::Instant::from_std(until)).await;
+                }
+            }
+            _ => {
+                let start = std::time::Instant::now();
+                let o = one_query(&client, &sc, &mocks).await;
+                let end = std::time::Instant::now();
+                let traffic: usize = o.contacts.iter().sum();
+                summary.push_str(&format!("{st}{i}:traffic={} ", traffic.min(1)));
+                if o.result.is_err() {
+                    return fail("wrong-result", "expiry-script", format!("{name}: step {i}: every endpoint answers well, yet the query failed: {:?}", o.result));
+                }
+                match stored {
+                    Some((lo, hi)) => {
+                        if start > hi + SHORT_TTL + margin {
+                            if traffic == 0 {
+                                return fail(
+                                    "expired-answer-served",
+                                    &format!("{}|{cache_cls}", sc.script),
+                                    format!("{name}: step {i} started {:.3} s after the answer was stored (TTL 2 s) and was answered without any network traffic", (start - hi).as_secs_f64()),
+                                );
+                            }
+                        } else if end + margin < lo + SHORT_TTL {
+                            if traffic != 0 {
+                                return fail(
+                                    "cached-answer-not-used",
+                                    &format!("{}|{cache_cls}", sc.script),
+                                    format!("{name}: step {i} ended {:.3} s after the answer was stored (TTL 2 s) and produced network traffic {:?}", (end - lo).as_secs_f64(), o.contacts),
+                                );
+                            }
+                        } else {
+                            unjudged += 1;
+                        }
+                    }
+                    None => {
+                        if traffic == 0 {
+                            return fail("answer-from-nowhere", &format!("{}|{cache_cls}", sc.script), format!("{name}: step {i}: nothing can be cached yet, but the query produced no network traffic"));
+                        }
+                    }
+                }
+                if traffic != 0 {
+                    stored = Some((start, end));
+                }
+            }
+        }
+    }
+    if unjudged > 0 {
+        summary.push_str(&format!("unjudged={unjudged}"));
+    }
+    (sc, Ok(summary))
+}
+
 async fn run_scenario(sc: Scenario) -> (Scenario, Result<String, (String, String, String)>) {
+    if sc.script.starts_with("x:") {
+        return run_expiry_scenario(sc).await;
+    }
     let name = sc.name();
     let m0 = http_mock(http_behaviour(sc.https.unwrap_or(HB::Refuse), 100)).await;
     let m1 = http_mock(http_behaviour(sc.http.unwrap_or(HB::Refuse), 200)).await;
@@ -432,12 +534,22 @@ fn scenarios(tier: Tier) -> Vec<Scenario> {
             }
         }
     }
+    // (6) around cache expiry (TTL 2 s, real time): same client, new client adopting the answer
+    // early or mid-TTL, new client after expiry; own TTL class short and the others 1 h (split)
+    // or all classes short
+    for ep in ["v1/products/wow/versions", "v1/products/wow/cdns", "v1/products/wow/bgdl", "v1/summary"] {
+        for split in [false, true] {
+            for (script, disk) in [("x:qqWq", true), ("x:qnqWq", true), ("x:qwnqWq", true), ("x:qWnq", true), ("x:qwqWq", true), ("x:qqWq", false), ("x:qwqWq", false)] {
+                out.push(Scenario { https: Some(HB::Valid), http: Some(HB::Valid), tcp: TB::ValidV1, cut: None, cut2: None, ttl_split: split, endpoint: ep, script, ttl_zero: false, disk_cache: disk });
+            }
+        }
+    }
     out
 }
 
 pub fn run(tier: Tier, seed: u64) -> i32 {
     let rep = Report::new("C13", tier, seed, Level::ModelChecking);
-    rep.set_rule("scenario = assignment of a behaviour to each of the three loopback endpoints × endpoint class × query script × TTL class × cache kind; (1) the full product of behaviours for versions/qq/1h/disk, (2) a reduced behaviour set across all other dimensions, (3) endpoint URLs present/empty, (4) every single cut position of every valid TCP response, (5) every pair (first cut anywhere, second cut at every later line end; thorough: later positions on a grid of 3); states = scenarios, transitions = queries issued, traces = scenarios executed on the real RibbitTactClient");
+    rep.set_rule("scenario = assignment of a behaviour to each of the three loopback endpoints × endpoint class × query script × TTL class × cache kind; (1) the full product of behaviours for versions/qq/1h/disk, (2) a reduced behaviour set across all other dimensions, (3) endpoint URLs present/empty, (4) every single cut position of every valid TCP response, (5) every pair (first cut anywhere, second cut at every later line end; thorough: later positions on a grid of 3), (6) query scripts around the expiry of a 2 s TTL in real time (same client, new client adopting the stored answer at once / mid-TTL / after expiry; own TTL class short with the others 1 h, or all short), judged only where the measured times leave no doubt; states = scenarios, transitions = queries issued, traces = scenarios executed on the real RibbitTactClient");
     rep.assume("loopback TCP, plain HTTP for the 'HTTPS' endpoint (as the repository's own tests do); real time; a refused connection is produced by a bound, non-listening socket");
     rep.assume("classification: 5xx/429/refused/stall = transient, 4xx other than 429 = definitive; 200+malformed body, accept-and-close, close-mid-body are 'failed' but not judged on stop-vs-continue (DESIGN §6)");
     rep.assume("a single cut is exhaustive for segmentation: the client's read loop state is the received prefix and its stop rule is evaluated at segment ends only");
@@ -470,8 +582,10 @@ pub fn run(tier: Tier, seed: u64) -> i32 {
     });
     drop(rt);
     let mut queries = 0u64;
+    let expiry_total = results.iter().filter(|(sc, _)| sc.script.starts_with("x:")).count();
+    let expiry_with_unjudged_step = results.iter().filter(|(_, r)| matches!(r, Ok(s) if s.contains("unjudged="))).count();
     for (i, (sc, r)) in results.iter().enumerate() {
-        queries += 2;
+        queries += if sc.script.starts_with("x:") { sc.script.matches('q').count() as u64 } else { 2 };
         match r {
             Ok(summary) => {
                 rep.add_outcome(crate::util::fnv64_str(summary));
@@ -492,7 +606,11 @@ pub fn run(tier: Tier, seed: u64) -> i32 {
     rep.add_traces(total as u64);
     rep.add_evaluations(total as u64);
     rep.add_nontrivial_count(total as u64);
-    rep.extra("bounds", json!({"scenarios": total, "stall_behaviours": tier == Tier::Thorough}));
+    rep.extra("bounds", json!({"scenarios": total, "stall_behaviours": tier == Tier::Thorough,
+        "expiry_scripts": {"scenarios": expiry_total, "ttl": "2 s, real time", "scenarios_with_a_step_too_close_to_the_expiry_instant_to_judge": expiry_with_unjudged_step}}));
+    if expiry_total > 0 && expiry_with_unjudged_step * 2 > expiry_total {
+        rep.cap_hit("more than half of the expiry scripts had a step too close to the expiry instant to be judged (machine too loaded for the 2 s TTL)");
+    }
     if rep.outcomes() < 10 {
         rep.machinery_error("vacuous: fewer than 10 distinct outcomes");
     }
@@ -512,7 +630,7 @@ pub fn replay(w: &serde_json::Value) -> i32 {
         tcp: parse_tb(wit["tcp"].as_str().unwrap_or("")),
         cut: wit["cut"].as_u64().map(|c| c as usize),
         endpoint,
-        script: match wit["script"].as_str() { Some("qnq") => "qnq", Some("q") => "q", _ => "qq" },
+        script: ["qq", "qnq", "q", "x:qqWq", "x:qnqWq", "x:qwnqWq", "x:qWnq", "x:qwqWq"].into_iter().find(|x| Some(*x) == wit["script"].as_str()).unwrap_or("qq"),
         cut2: wit["cut2"].as_u64().map(|c| c as usize),
         ttl_split: wit["ttl_split"].as_bool().unwrap_or(false),
         ttl_zero: wit["ttl_zero"].as_bool().unwrap_or(false),
